@@ -744,12 +744,10 @@ class CSemantics:
 
     def on_ternop(self, lhs, op, mid, rhs, location):
         """Handle ternary operator 'a ? b : c'"""
-        lhs = self.pointer(lhs)
-        lhs = self.coerce(lhs, self.int_type)
-        # TODO: For now, we use the common type of b and c as the result
-        # But is this correct?
-        mid = self.pointer(mid)
-        rhs = self.pointer(rhs)
+        lhs = self.check_condition(lhs)
+        # The result has the common type of b and c (after promotion):
+        mid = self.promote(self.pointer(mid))
+        rhs = self.promote(self.pointer(rhs))
         common_type = self.get_common_type(mid.typ, rhs.typ, location)
         mid = self.coerce(mid, common_type)
         rhs = self.coerce(rhs, common_type)
@@ -861,13 +859,24 @@ class CSemantics:
             if not (rhs.typ.is_scalar or rhs.typ.is_pointer):
                 self.error("Expected scalar or pointer", rhs.location)
 
+            lhs = self.promote(lhs)
+            rhs = self.promote(rhs)
             common_typ = self.get_common_type(lhs.typ, rhs.typ, location)
             lhs = self.coerce(lhs, common_typ)
             rhs = self.coerce(rhs, common_typ)
 
             # Booleans are integer type:
             result_typ = self.int_type
-        elif op in ["<<", ">>", "|", "&", "^"]:  # Bit shifting operators
+        elif op in ["<<", ">>"]:  # Bit shifting operators
+            self.ensure_integer(lhs)
+            self.ensure_integer(rhs)
+
+            # The result has the type of the promoted left operand:
+            lhs = self.promote(lhs)
+            rhs = self.promote(rhs)
+            result_typ = lhs.typ
+            rhs = self.coerce(rhs, result_typ)
+        elif op in ["|", "&", "^"]:  # Bitwise operators
             self.ensure_integer(lhs)
             self.ensure_integer(rhs)
 
@@ -909,14 +918,15 @@ class CSemantics:
 
             expr = expressions.UnaryOperator(op, a, a.typ, False, location)
         elif op == "-":
-            a = self.pointer(a)
+            a = self.promote(self.pointer(a))
             expr = expressions.UnaryOperator(op, a, a.typ, False, location)
         elif op == "~":
             a = self.pointer(a)
             self.ensure_integer(a)
+            a = self.promote(a)
             expr = expressions.UnaryOperator(op, a, a.typ, False, location)
         elif op == "+":
-            expr = self.pointer(a)
+            expr = self.promote(self.pointer(a))
         elif op == "*":
             a = self.pointer(a)
             if not a.typ.is_pointer:
